@@ -19,6 +19,9 @@ STMTS = [
     "select * from t3",
     "insert into t4 select 'a;b' as k, a from t3 -- tail; comment\n",
     "drop table t9",
+    # a ';' inside a comment / literal in the MIDDLE of a statement (more statement text follows it)
+    "insert into t5 select s.a from s5 s -- fixme; temporary\n join u5 u on s.i = u.i",
+    "insert into t6 select a from s6 where b = 'x;y' and c = 1",
 ]
 SEPS = [";", ";;", ";\n", "\n;\n", "; -- c;omment\n", ";\n/* block; comment */\n", ";\n/* only a comment */;\n", " ;\n-- disabled: select 1;\n;\n"]
 LEAD = ["", "\n\n", "-- header; line\n", "/* header */ ;\n", ";"]
@@ -49,9 +52,18 @@ def main():
         if len(fails) < 4:
             fails.append(dict(clause=clause, **{k: (v if isinstance(v, (int, list)) else str(v)) for k, v in kw.items()}))
 
-    singles = {s: LineageRunner(s) for s in STMTS}
-    for s in singles.values():
-        s._eval()
+    singles = {}
+    for s in list(STMTS):
+        try:
+            singles[s] = LineageRunner(s)
+            singles[s]._eval()
+            if [norm(x) for x in singles[s].statements()] != [norm(s)]:
+                bad("ensures.the_kept_statements_in_order_nothing_else", script=s, got=singles[s].statements(), want=[s])
+        except Exception as e:
+            # a corpus statement that cannot even be analysed on its own: reported, then left out of the combinations
+            bad("ensures.the_kept_statements_in_order_nothing_else", script=s, error=repr(e)[:200])
+            STMTS.remove(s)
+            singles.pop(s, None)
     for k in range(1, n + 1):
         for combo in itertools.permutations(range(len(STMTS)), k):
             full = itertools.product(SEPS, LEAD, TRAIL) if (thorough and k <= 2) else (itertools.product(SEPS, LEAD[:3], TRAIL[:3]) if k == 1 else [(SEPS[(sum(combo) + j) % len(SEPS)], LEAD[(sum(combo) + j) % len(LEAD)], TRAIL[(combo[0] + j) % len(TRAIL)]) for j in range(3)])
